@@ -2,7 +2,7 @@
    checker of Proofs/Cube.v: the regenerated decoder function is turned into a decision tree (checked by conversion) and
    compared with the hand-written architectural table (Spec/DecTables.v) on every word of the group's domain. *)
 From Coq Require Import ZArith Bool List String.
-From ArmV Require Import Lib.PyZ Proofs.Cube Proofs.DecodeReify Spec.DecTables Proofs.DecArm1.
+From ArmV Require Import Lib.PyZ Proofs.Cube Proofs.DecodeReify Spec.DecTables Spec.DecTablesA2 Proofs.DecArm1 Proofs.DecArm2.
 From Gen Require Import bits_ops opsyn decoders.
 Import ListNotations.
 Open Scope Z_scope.
@@ -32,3 +32,91 @@ Theorem C06_dp_immediate w : 0 <= w < 2 ^ 32 -> in_domains w dpi_domains ->
   dec_arm_data_processing_immediate w = eval_leaf [] None (lookup dpi_table (LRet None) w) w.
 Proof. exact (dec_dp_immediate_table w). Qed.
 Print Assumptions C06_dp_immediate.
+
+(* ---------- further groups (Spec/DecTablesA2.v), each for every word of its architectural domain ---------- *)
+(* A5.2.7 halfword multiply *)
+Theorem C06_hmul w : 0 <= w < 2 ^ 32 ->
+  dec_arm_halfword_multiply_and_multiply_accumulate w = eval_leaf a_no_env None (lookup a_hmul_table (LRet None) w) w.
+Proof. exact (dec_arm_hmul_table w). Qed.
+Print Assumptions C06_hmul.
+(* A5.2.6 saturating addition and subtraction *)
+Theorem C06_sat w : 0 <= w < 2 ^ 32 ->
+  dec_arm_saturating_addition_and_subtraction w = eval_leaf a_no_env None (lookup a_sat_table (LRet None) w) w.
+Proof. exact (dec_arm_sat_table w). Qed.
+Print Assumptions C06_sat.
+(* A5.2.10 synchronization primitives *)
+Theorem C06_sync w : 0 <= w < 2 ^ 32 ->
+  dec_arm_synchronization_primitives w = eval_leaf a_no_env None (lookup a_sync_table (LRet None) w) w.
+Proof. exact (dec_arm_sync_table w). Qed.
+Print Assumptions C06_sync.
+(* A5.2.9 extra load/store, unprivileged *)
+Theorem C06_xlsu w : 0 <= w < 2 ^ 32 ->
+  dec_arm_extra_load_store_instructions_unprivileged w = eval_leaf a_no_env None (lookup a_xlsu_table (LRet None) w) w.
+Proof. exact (dec_arm_xlsu_table w). Qed.
+Print Assumptions C06_xlsu.
+(* A5.4 media instructions (routing and the bit-field / USAD8 / UDF rows) *)
+Theorem C06_media w : 0 <= w < 2 ^ 32 ->
+  dec_arm_media_instructions w = eval_leaf a_media_env None (lookup a_media_table (LRet None) w) w.
+Proof. exact (dec_arm_media_table w). Qed.
+Print Assumptions C06_media.
+(* A5.4.1 parallel addition and subtraction, signed *)
+Theorem C06_pas w : 0 <= w < 2 ^ 32 ->
+  dec_arm_parallel_addition_and_subtraction_signed w = eval_leaf a_no_env None (lookup a_pas_table (LRet None) w) w.
+Proof. exact (dec_arm_pas_table w). Qed.
+Print Assumptions C06_pas.
+(* A5.4.2 parallel addition and subtraction, unsigned *)
+Theorem C06_pau w : 0 <= w < 2 ^ 32 ->
+  dec_arm_parallel_addition_and_subtraction_unsigned w = eval_leaf a_no_env None (lookup a_pau_table (LRet None) w) w.
+Proof. exact (dec_arm_pau_table w). Qed.
+Print Assumptions C06_pau.
+(* A5.4.3 packing, unpacking, saturation, reversal *)
+Theorem C06_pack w : 0 <= w < 2 ^ 32 ->
+  dec_arm_packing_unpacking_saturation_and_reversal w = eval_leaf a_no_env None (lookup a_pack_table (LRet None) w) w.
+Proof. exact (dec_arm_pack_table w). Qed.
+Print Assumptions C06_pack.
+(* A5.4.4 signed multiply, divide *)
+Theorem C06_smul w : 0 <= w < 2 ^ 32 ->
+  dec_arm_signed_multiply_signed_and_unsigned_divide w = eval_leaf a_no_env None (lookup a_smul_table (LRet None) w) w.
+Proof. exact (dec_arm_smul_table w). Qed.
+Print Assumptions C06_smul.
+(* A5.2.12 miscellaneous instructions *)
+Theorem C06_misc w : 0 <= w < 2 ^ 32 ->
+  dec_arm_miscellaneous_instructions w = eval_leaf a_misc_env (Val None) (lookup a_misc_table (LRet (Val None)) w) w.
+Proof. exact (dec_arm_misc_table w). Qed.
+Print Assumptions C06_misc.
+(* A5.2.11 MSR (immediate) and hints *)
+Theorem C06_msr w : 0 <= w < 2 ^ 32 ->
+  dec_arm_msr_immediate_and_hints w = eval_leaf a_no_env_res (Val None) (lookup a_msr_table (LRet (Val None)) w) w.
+Proof. exact (dec_arm_msr_table w). Qed.
+Print Assumptions C06_msr.
+(* A5.7 unconditional instructions *)
+Theorem C06_uncond w : 0 <= w < 2 ^ 32 ->
+  dec_arm_unconditional_instructions w = eval_leaf a_uncond_env (Val None) (lookup a_uncond_table (LRet (Val None)) w) w.
+Proof. exact (dec_arm_uncond_table w). Qed.
+Print Assumptions C06_uncond.
+(* A5.6 coprocessor instructions and SVC *)
+Theorem C06_cop w : 0 <= w < 2 ^ 32 ->
+  dec_arm_coprocessor_instructions_and_supervisor_call w = eval_leaf a_no_env_res (Val None) (lookup a_cop_table (LRet (Val None)) w) w.
+Proof. exact (dec_arm_cop_table w). Qed.
+Print Assumptions C06_cop.
+(* A5.2.1 data-processing (register) *)
+Theorem C06_dpr w : 0 <= w < 2 ^ 32 -> in_domains w [a_dpr_domain] ->
+  dec_arm_data_processing_register w = eval_leaf a_no_env None (lookup a_dpr_table (LRet None) w) w.
+Proof. exact (dec_arm_dpr_table w). Qed.
+Print Assumptions C06_dpr.
+(* A5.2.2 data-processing (register-shifted register) *)
+Theorem C06_rsr w : 0 <= w < 2 ^ 32 -> in_domains w [a_rsr_domain] ->
+  dec_arm_data_processing_register_shifted_register w = eval_leaf a_no_env None (lookup a_rsr_table (LRet None) w) w.
+Proof. exact (dec_arm_rsr_table w). Qed.
+Print Assumptions C06_rsr.
+(* A5.2.8 extra load/store *)
+Theorem C06_xls w : 0 <= w < 2 ^ 32 -> in_domains w a_xls_domains ->
+  dec_arm_extra_load_store_instructions w = eval_leaf a_no_env None (lookup a_xls_table (LRet None) w) w.
+Proof. exact (dec_arm_xls_table w). Qed.
+Print Assumptions C06_xls.
+(* A5.2 data-processing and miscellaneous: routing to the groups above, for every word except LDRSBT/LDRSHT, which the emulator
+   reaches through its extra load/store decoder with the same final class *)
+Theorem C06_dp_misc_routing w : 0 <= w < 2 ^ 32 -> in_domains w a_dpm_domains ->
+  dec_arm_data_processing_and_miscellaneous_instructions w = eval_leaf a_dpm_env (Val None) (lookup a_dpm_table (LRet (Val None)) w) w.
+Proof. exact (dec_arm_dpm_table w). Qed.
+Print Assumptions C06_dp_misc_routing.
